@@ -284,8 +284,18 @@ func (g *gctx) genStruct(depth int) reflect.Type {
 		case 7:
 			f.Tag = `json:",omitempty,omitzero"`
 		case 8:
-			name := []string{"q\"uote", "sp ace", "\u2028", "<&>", "\u00e9", "a" + bsl + "b", " "}[r.IntN(7)]
+			// (the last four spell ill-formed UTF-8 in pairs that become equal once each bad byte is U+FFFD)
+			name := []string{"q\"uote", "sp ace", "\u2028", "<&>", "\u00e9", "a" + bsl + "b", " ", "id\xff", "id\xfe", "\xc3", "\xff"}[r.IntN(11)]
 			f.Tag = reflect.StructTag("json:" + strconv.Quote(quoteTagOption(name)))
+			if !utf8.ValidString(name) {
+				// (a single-quoted name is sanitized by the tag parser's unquoting; only a bare name keeps its bytes)
+				f.Tag = reflect.StructTag("json:" + strconv.Quote(name))
+			}
+			if partner, ok := map[string]string{"id\xff": "id\xfe", "id\xfe": "id\xff", "\xc3": "\xff", "\xff": "\xc3"}[name]; ok && r.IntN(2) == 0 {
+				// a sibling whose different bytes read as the same text
+				fs = append(fs, reflect.StructField{Name: fmt.Sprintf("G%d", i), Type: g.genType(depth + 1),
+					Tag: reflect.StructTag("json:" + strconv.Quote(partner))})
+			}
 		}
 		if f.Tag == "" && r.IntN(4) > 0 {
 			switch f.Type {
